@@ -52,3 +52,41 @@ func TestFindingC13ShortValueFrame(t *testing.T) {
 		}
 	}
 }
+
+// the same defect one level down: a PIPELINE value whose entry is shorter than a frame header, and an
+// EXECUTE value whose nested command carries a 1-byte value frame (fix commits 2f9ebcb and 2d35cff)
+func TestFindingC13ShortNestedFrames(t *testing.T) {
+	testWithLockDB(t, func(db *LockDB) {
+		run := func(name string, frame []byte) {
+			defer func() {
+				if r := recover(); r != nil {
+					t.Errorf("%s: panic %v", name, r)
+				}
+			}()
+			lockCommand := protocol.NewLockCommand(db.dbId, protocol.GenLockId(), protocol.GenLockId(), 10, 10, 0)
+			lockCommand.Data = protocol.NewLockCommandDataFromOriginBytes(frame)
+			lockManager := db.GetOrNewLockManager(lockCommand)
+			lock := lockManager.GetOrNewLock(defaultServerProtocol, lockCommand)
+			lockManager.ProcessLockData(lockCommand, lock, false)
+		}
+		// PIPELINE (op 6) whose only entry announces a 1-byte frame
+		run("pipeline entry of length 1", []byte{7, 0, 0, 0, protocol.LOCK_DATA_COMMAND_TYPE_PIPELINE, 0, 1, 0, 0, 0, 9})
+		// PIPELINE with three stray trailing bytes
+		run("pipeline with a 3-byte tail", []byte{5, 0, 0, 0, protocol.LOCK_DATA_COMMAND_TYPE_PIPELINE, 0, 1, 2, 3})
+	})
+	nested := &protocol.LockCommand{}
+	inner := protocol.NewLockCommand(0, protocol.GenLockId(), protocol.GenLockId(), 1, 1, 0)
+	inner.Flag |= protocol.LOCK_FLAG_CONTAINS_DATA
+	buf := make([]byte, 64)
+	_ = inner.Encode(buf)
+	value := append([]byte{0, 0, 0, 0, protocol.LOCK_DATA_COMMAND_TYPE_EXECUTE, 0}, buf...)
+	value = append(value, 1, 0, 0, 0, 9) // nested value frame of length 1
+	func() {
+		defer func() {
+			if r := recover(); r != nil {
+				t.Errorf("nested 1-byte value frame: panic %v", r)
+			}
+		}()
+		_ = protocol.NewLockCommandDataFromOriginBytes(value).DecodeLockCommand(nested)
+	}()
+}
